@@ -16,10 +16,16 @@ def _gen(world, key):
         rep = world.analyses[key][0](world)
     elif key in world.lemmas:
         for k in world.lemmas[key].needs:  # creates the comprehension-derived functions the lemma talks about
-            verify_function(world, k)
+            cls = None
+            if world.contracts[k].executor == "template":
+                from .templates import TemplateExecutor as cls
+            verify_function(world, k, executor_cls=cls) if cls else verify_function(world, k)
         rep = verify_lemma(world, world.lemmas[key])
     else:
-        rep = verify_function(world, key)
+        cls = None
+        if world.contracts[key].executor == "template":
+            from .templates import TemplateExecutor as cls
+        rep = verify_function(world, key, executor_cls=cls) if cls else verify_function(world, key)
     obs = []
     seen = set()
     for o in rep.obligations:
